@@ -212,8 +212,15 @@ def exact_matrices(F, sel, facts):
     elif kind == 5:                             # two equal columns
         for i in range(4):
             m[4 * i + 2] = m[4 * i + 1]
+    # uniform scalings: invertible matrices whose determinant is tiny or huge (1e-3 .. 1e-5 per axis)
+    factor = [1, 1, Fraction(1, 1000), Fraction(1, 100000), 1000, Fraction(3, 2000)][(sel // 24) % 6]
+    if factor != 1:
+        m = [x * factor for x in m]
+        facts['scaled_matrix_for_inverse'] += 1
     Mx = dm.Mat4(tuple(m))
     det = ref_det(m, 4)
+    if det != 0 and abs(det) < Fraction(1, 10 ** 9):
+        facts['invertible_with_tiny_determinant'] += 1
     with warnings.catch_warnings(record=True) as caught:
         warnings.simplefilter('always')
         inv = ~Mx
